@@ -32,7 +32,7 @@ def load(rel, model=None):
     return _cache[key]
 
 
-def rebuild(structure, coord_fn=None, keep_res=None, atom_filter=None, atom_order=None, relabel=None, letter_fn=None):
+def rebuild(structure, coord_fn=None, keep_res=None, atom_filter=None, atom_order=None, relabel=None, letter_fn=None, model=None):
     """New Structure3D from an existing one with transformed coordinates /
     dropped residues / dropped atoms / shuffled atom order / relabelled ids."""
     from rnapolis import tertiary
@@ -56,11 +56,11 @@ def rebuild(structure, coord_fn=None, keep_res=None, atom_filter=None, atom_orde
                 x, y, z = coord_fn(ri, np.array([a.x, a.y, a.z]))
             else:
                 x, y, z = a.x, a.y, a.z
-            atoms.append(tertiary.Atom(a.entity_id, label, auth, a.model, a.name, float(x), float(y), float(z), a.occupancy))
+            atoms.append(tertiary.Atom(a.entity_id, label, auth, a.model if model is None else model, a.name, float(x), float(y), float(z), a.occupancy))
         if not atoms:
             continue
         letter = r.one_letter_name if letter_fn is None else letter_fn(ri, r)
-        residues.append(tertiary.Residue3D(label, auth, r.model, letter, tuple(atoms)))
+        residues.append(tertiary.Residue3D(label, auth, r.model if model is None else model, letter, tuple(atoms)))
     return tertiary.Structure3D(residues)
 
 
@@ -130,6 +130,24 @@ def apply_ops(structure, ops):
                     num, ic = plan[ri]
                     return r.label, ResidueAuth(r.auth.chain, num, ic, r.auth.name)
                 return r.label, r.auth
+
+            s = rebuild(s, relabel=relabel)
+        elif k == "renumber":
+            # order-preserving renumbering: every chain starts at op["first"]
+            # (negative numbers and zero are legitimate PDB/mmCIF residue numbers)
+            from rnapolis.common import ResidueAuth, ResidueLabel
+
+            lo = {}
+            for r in s.residues:
+                n = r.auth.number if r.auth is not None else r.label.number
+                lo[r.chain] = min(lo.get(r.chain, n), n)
+            first = op["first"]
+
+            def relabel(ri, r, lo=lo, first=first):
+                d = first - lo[r.chain]
+                lab = ResidueLabel(r.label.chain, r.label.number + d, r.label.name) if r.label is not None else None
+                auth = ResidueAuth(r.auth.chain, r.auth.number + d, r.auth.icode, r.auth.name) if r.auth is not None else None
+                return lab, auth
 
             s = rebuild(s, relabel=relabel)
         elif k == "reverse-res":
